@@ -24,7 +24,7 @@ func runC09(w *World) {
 	stim := (cell / 3) % 6
 	dir := Dir(cell / 18)
 	passive := dir == DirIn && w.Draw(2, "passive") == 1
-	s := NewStd1(w, Std1Opts{Dir: dir, Passive: passive, LocalHold: 90, RemoteHold: 90})
+	s := NewStd1(w, Std1Opts{Dir: dir, Passive: passive, LocalHold: 90, RemoteHold: 90, Vary: true})
 	if s == nil {
 		return
 	}
